@@ -85,6 +85,18 @@ func c12XFlate(r *vhlib.Run, m *vhlib.Model, cfg xwCfg, ops []xwOp, kind string)
 				r.Violate("cut-deflate-misread", fmt.Sprintf("cut=%d zlib: %s", k, zst), rp)
 			}
 		}
+		// this repository's flate.Reader on the cut, over both input paths of the bit reader
+		if k < len(sink) {
+			for _, sk := range srcKinds() {
+				if sk.Name != "ByteReader" && sk.Name != "bytes.Reader" {
+					continue
+				}
+				ob := observe(codecs()[0], cut, sk, []int{4096}, r.Rng)
+				if ob.Cls == "nil" || !isPrefix(ob.Out, plain) {
+					r.Violate("cut-deflate-misread", fmt.Sprintf("cut=%d/%d flate.Reader src=%s: class=%s out=%d", k, len(sink), sk.Name, ob.Cls, len(ob.Out)), rp)
+				}
+			}
+		}
 		// xflate.NewReader: fails, or serves exactly the original
 		func() {
 			defer func() {
@@ -149,6 +161,16 @@ func c12Bzip2(r *vhlib.Run, data []byte, level int) {
 		o := observe(codecs()[2], cut, srcKinds()[0], []int{4096}, r.Rng)
 		if o.Cls == "nil" || !isPrefix(o.Out, data) {
 			r.Violate("cut-bzip2-misread", fmt.Sprintf("bzip2.Reader cut=%d class=%s", k, o.Cls), rp)
+		}
+		// the same cut through a ReadByte-only source (the other input path of the bit reader)
+		for _, sk := range srcKinds() {
+			if sk.Name != "ByteReader" {
+				continue
+			}
+			ob := observe(codecs()[2], cut, sk, []int{4096}, r.Rng)
+			if ob.Cls == "nil" || !isPrefix(ob.Out, data) {
+				r.Violate("cut-bzip2-misread", fmt.Sprintf("bzip2.Reader over a ReadByte-only source: cut=%d class=%s", k, ob.Cls), rp)
+			}
 		}
 		if k%5 == 0 && len(cut) < 3000 {
 			obsStr := fmt.Sprintf("%s %s", o.Cls, vhlib.Hex(o.Out))
